@@ -376,3 +376,13 @@ func c28DefectCoverage(r *vkit.Run, cells map[string]int64) {
 		}
 	}
 }
+
+// c28DefectReqBytes renders the defective request of a case of the family (for samples).
+func c28DefectReqBytes(c *c28Case) []byte {
+	for i, q := range c.Reqs {
+		if c28IsDefect(q.Kind) {
+			return c.reqBytes(i)
+		}
+	}
+	return nil
+}
